@@ -204,10 +204,18 @@ end ArgMapper
 
 namespace ArgMapper
 
-/-- `ValueSet.Signature()` for a set whose (pointer-to-)struct type has id `structTy`;
-`none` models the index-out-of-range panic of the lifted branch, which sizes the slice by the
-per-type map but indexes it by field position -/
+/-- `ValueSet.Signature()` for a set whose (pointer-to-)struct type has id `structTy`: the lifted
+branch fills one slot per value, by field position (`none` = index out of range) -/
 def ValueSet.signature (s : ValueSet) (structTy : Nat) : Option (List Nat) :=
+  if !s.lifted then (if s.hasStruct then some [structTy] else some [])
+  else if s.values.all (fun v => decide (v.index < s.values.length)) then
+    some ((List.range s.values.length).map (fun i =>
+      ((s.values.find? (fun v => v.index == i)).map (fun v => v.lab.ty)).getD 0))
+  else none
+
+/-- the same function before the repair of finding F1: the slice was sized by, and filled from,
+the per-*type* map, so a repeated positional type indexed out of range (`none`) -/
+def ValueSet.signatureByTypeMap (s : ValueSet) (structTy : Nat) : Option (List Nat) :=
   if !s.lifted then (if s.hasStruct then some [structTy] else some [])
   else if s.typed.all (fun p => decide (p.2.index < s.typed.length)) then
     some ((List.range s.typed.length).map (fun i =>
